@@ -82,6 +82,29 @@ CLAIMED.update({
                 design='§6 C14', note=NOTE_COMMON + ' Proof-partial: only the MACD and APO reports are instantiated in Lean, the others rest on the generic shape theorems + the Go oracle. text/template rendering is trusted.'),
 })
 
+CLAIMED.update({
+    'C10': dict(level='proof', technique='Lean 4 refinement proof: repository state machines (in-memory, SQL rows) refine the abstract map asset -> appended rows, over all operation histories + differential correspondence with the Go repositories (file system, in-memory, database/sql behind a fake driver)',
+                text='Both repository models are state machines over Append/Get/GetSince/LastDate/Assets; Lean proves by induction over arbitrary operation histories that every observation equals that of the abstract map (rows in append order, GetSince filtered by date >= d, LastDate = last row or not-found, an unknown asset never aliases another). '
+                     'The three Go repositories are driven with generated histories (unknown assets, empty appends, repeated appends, date filters) and compared with the model and an independent oracle. SQL Get of an unknown asset returning an empty success is a recorded finding.',
+                design='§6 C10', note=NOTE_COMMON + ' database/sql is exercised against an in-process fake driver that implements the three statements of the default dialect; a real SQL engine is not available offline.'),
+    'C11': dict(level='proof', technique='Lean 4 theorems about the file-level glue (write replaces, append keeps, append-or-write, columns located by header name) + round-trip correspondence on the real codecs for all supported field kinds',
+                text='File-level laws (a write replaces the content; appends keep existing rows; AppendOrWrite on a missing/empty file writes the header; reading locates each struct column by header name regardless of order and extra columns) are theorems of the row-level file model for all histories. '
+                     'The field codecs (strconv/time/encoding/csv/encoding/json) are exercised in Go: generated rows with every supported kind incl. extreme values, NaN/Inf, quoting-sensitive strings, custom date formats, shuffled/extra columns, must read back identical, and file histories are compared with the model.',
+                design='§6 C11', note=NOTE_COMMON + ' Field codecs are trusted standard library, covered by round-trip runs only. A plain AppendToFile onto an existing 0-byte file (rows without header) is outside the property domain (model predicate WF).'),
+    'C12': dict(level='proof', technique='Lean 4 proofs about the Sync state machine (per-asset result, failure isolation, commutation of per-asset steps => worker/order independence, idempotence) + correspondence with Go under the race detector and fault injection',
+                text='Sync is modelled as a per-asset step over (source, target, fault) -> (target, error); Lean proves for all repositories and asset lists that a successful asset ends with target rows = previous rows + source rows since (last date or default start), that a failing asset leaves its rows unchanged and other assets unaffected, '
+                     'that per-asset steps commute (so any worker count or completion order gives the same target), that a failure is reported and that re-running is idempotent on the modelled source. Go Sync is run with 1..8 workers, injected Get/Append/LastDate faults and delayed workers, built with -race, and compared with the model.',
+                design='§6 C12', note=NOTE_COMMON + ' Goroutine scheduling itself is explored by repetition under the race detector, not proved.'),
+    'C13': dict(level='proof', technique='Lean 4 proofs over all interleavings of per-asset blocks (every pair once, protocol order inside an asset) and sortedness under the lawful comparator + correspondence of the Go Backtest with a recording report under -race',
+                text='The report sees an interleaving of the per-asset blocks; Lean proves for every interleaving (any worker count) that the writes are a permutation of all (asset, strategy) pairs and that each asset block keeps AssetBegin < writes in strategy order < AssetEnd; ranking by the lawful comparator is non-increasing (and the truncating comparator is shown not to be). '
+                     'Go Backtest is run with 1..8 workers, varying assets/strategies, a recording report (protocol automaton), the Data and HTML reports (ranking oracle incl. outcomes closer than one percentage point), all with -race.',
+                design='§6 C13', note=NOTE_COMMON + ' slices.SortFunc is trusted given a lawful comparator; HTML template rendering is trusted.'),
+    'C19': dict(level='proof', technique='Lean 4 theorems about the reader loop over an abstract parser (delivered rows = decoded well-formed prefix; short records undecodable; non-200 is an error) + correspondence of the Go readers on generated and corrupted documents with a goroutine census',
+                text='The reader loops are total functions of the parser events: Lean proves the delivered rows are exactly the decoded records of the well-formed prefix and that a record shorter than a mapped column cannot be decoded. '
+                     'Go: valid CSV/JSON documents are corrupted (truncation, short/long records, bad numbers/dates, wrong JSON types, garbage) and fed to ReadFromReader/JSONToChan/Tiingo (httptest server with status codes and bodies); expected: no panic, no extra rows beyond the good prefix, error reported, channels closed, goroutine count back to baseline.',
+                design='§6 C19', note=NOTE_COMMON + ' encoding/csv, encoding/json and net/http are the trusted standard library.'),
+})
+
 PENDING = {}
 
 def main():
